@@ -618,7 +618,18 @@ def case_datetime(ctx, rng):
 def case_real(ctx, rng):
     ctx.evaluated()
     tp = ctx.state['tp']
-    if rng.random() < 0.5:
+    if rng.random() < 0.25:
+        # decimal literals: small integer significand x power of ten (their
+        # text form has an exponent and an integral significand)
+        t = rng.choice(['real32', 'real64'])
+        cls = Real64 if t == 'real64' else Real32
+        single = t == 'real32'
+        e = rng.randint(-320, 308) if not single else rng.randint(-45, 38)
+        f = float('%de%d' % (rng.choice([1, 1, 2, 3, 5, 7, 9, -1, -4, 10, 25]),
+                             e))
+        if single:
+            f = cimgen.f32(f)
+    elif rng.random() < 0.5:
         t, cls = 'real64', Real64
         r = rng.random()
         if r < 0.7:
